@@ -67,6 +67,8 @@ def cases(tier, seed):
                 out.append(dict(mode="diffusion", mask=m, dir=di, ndev=2, slot=slot))
     for m, di, sch in itertools.product(MASKS, range(8), ["EF", "RK4"] if tier == "quick" else ["EF", "RK2", "RK4"]):
         out.append(dict(mode="model", mask=m, dir=di, scheme=sch, speed=0.9 if (di + seed) % 2 else 0.3))
+    for m, di in itertools.product(["sea", "island"], [0, 3, 5] if tier == "quick" else range(8)):
+        out.append(dict(mode="model", mask=m, dir=di, scheme="EF", speed=0.9, layout="dense"))
     return out
 
 
@@ -137,6 +139,17 @@ def run_exact(case, dev=None):
     P = start_positions(w, lim)
     st.append(X=np.array([p[0] for p in P]), Y=np.array([p[1] for p in P]), Z=5.0)
     n = len(P)
+    # the grid's own notions of "at sea" and "on land" must be complementary everywhere, also exactly on the cell edges
+    hx = np.arange(lim[0] + 0.5, lim[1] - 1.0, 0.25)
+    hy = np.arange(lim[2] + 0.5, lim[3] - 1.0, 0.25)
+    HX, HY = (a.ravel() for a in np.meshgrid(hx, hy))
+    try:
+        sea, land = np.asarray(g.atsea(HX, HY)), np.asarray(g.onland(HX, HY))
+        if (sea == land).any():
+            k = int(np.argmax(sea == land))
+            return [("grid:atsea-vs-onland", f"at ({HX[k]},{HY[k]}) the grid says atsea={bool(sea[k])} and onland={bool(land[k])}")], dict(left=0, land=0, n=n)
+    except Exception as e:
+        return [("exception", f"grid.atsea/onland raised {e!r}")], dict(left=0, land=0, n=n)
     pos = [list(p) for p in P]
     alive, active = [True] * n, [True] * n
     bad, facts = [], dict(left=0, land=0, n=n)
@@ -216,14 +229,19 @@ def run_model(case):
     w.write_file(d / "f.nc", [dict(t=S0, **w.uniform(u, v)), dict(t=S0 + 6 * DT, **w.uniform(u, v))])
     lim = [1, 7, 1, 6]
     P = start_positions(w, lim)
-    rows = [dict(release_time=world.iso(S0 + (k % 2) * DT), X=x, Y=y, Z=3.0) for k, (x, y) in enumerate(P)]
+    # releases at steps 0, 1 and 3: particles released last (highest pids) near the outflow edge die first, later releases follow
+    rows = [dict(release_time=world.iso(S0 + (0, 1, 3)[k % 3] * DT), X=x, Y=y, Z=3.0) for k, (x, y) in enumerate(P)]
     rows.sort(key=lambda r: r["release_time"])
-    conf = drive.roms_conf(d, d / "f.nc", S0, S0 + 5 * DT, DT, rows, tracker=dict(advection=case["scheme"]))
+    layout = case.get("layout", "sparse")
+    conf = drive.roms_conf(d, d / "f.nc", S0, S0 + 5 * DT, DT, rows, tracker=dict(advection=case["scheme"]), layout=layout)
     bad, facts = [], dict(left=0, n=len(P))
     seen_alive = {}
+    dead_after = {}  # step -> pids known to be dead once that step is complete
 
     def after(model, k):
         st = model.state
+        now_alive = {p for p, a in zip(st.pid.tolist(), st.alive.tolist()) if a}
+        dead_after[k] = (set(seen_alive) | set(st.pid.tolist())) - now_alive
         for pid, x, y, a in zip(st.pid.tolist(), st.X.tolist(), st.Y.tolist(), st.alive.tolist()):
             if seen_alive.get(pid) is False and a:
                 bad.append(("alive:resurrected-or-not-killed", f"step {k}: pid {pid} alive again"))
@@ -236,13 +254,23 @@ def run_model(case):
 
     try:
         drive.run_model(conf, d, after_step=after)
-        out = world.read_output([d / "out.nc"])
+        out = world.read_output([d / "out.nc"], layout)
     except drive.RunFailed as e:
         return [("model:crash", str(e))], facts
+    if layout == "dense":  # columns = pids; a value that is not fill means the particle is in the record
+        recs = []
+        for rec in out["records"]:
+            X, Y = np.asarray(rec["vars"]["X"], float), np.asarray(rec["vars"]["Y"], float)
+            ok = ~(np.isnan(X) | (np.abs(X) > 9e36))
+            recs.append(dict(vars=dict(pid=np.nonzero(ok)[0], X=X[ok], Y=Y[ok])))
+        out = dict(records=recs)
     gone = set()
     prev = None
     for ri, rec in enumerate(out["records"]):
         pids = set(rec["vars"]["pid"].tolist())
+        ghosts = pids & dead_after.get(ri - 1, set())
+        if ghosts:
+            bad.append(("records:dead-particle-present", f"record {ri}: pids {sorted(ghosts)} were dead after step {ri - 1} but are in the record"))
         back = gone & pids
         if back:
             bad.append(("records:reappeared", f"record {ri}: pids {sorted(back)} reappear after having left the output"))
